@@ -281,6 +281,22 @@ func checkC05(e *RunEnv) *CheckResult {
 					Write("a", "a\n"), Write("d/f", dcontent), Write("z", "z\n"), Run("add", "a", "d", "z"), Run("commit", "-m", "m").WithTags(tag, fmt.Sprintf("tree-id-pos-%d", pos))}})
 			}
 		}
+		// an id with two 0x00 bytes (a parser that splits the tree data at NUL bytes copes with one, not with two)
+		twoZero := func(id string) bool {
+			n := 0
+			for i := 0; i < 40; i += 2 {
+				if id[i:i+2] == "00" {
+					n++
+				}
+			}
+			return n >= 2
+		}
+		zc := findContent("z", twoZero)
+		zd := findContent("y", func(id string) bool {
+			return twoZero(ObjID("tree", EncodeTree([]TreeEntry{{"100644", "f", id}})))
+		})
+		sp = append(sp, Case{Base: base, BaseName: "S0", BaseSeed: seedS0(), Steps: []Step{
+			Write("a", "a\n"), Write("f", zc), Write("d/f", zd), Write("z", "z\n"), Run("add", "a", "f", "d", "z"), Run("commit", "-m", "m").WithTags("id-two-zero-bytes")}})
 		special = x.RunCases(sp)
 		// the empty snapshot
 		x.RunCases([]Case{{Base: base, BaseName: "S0", BaseSeed: seedS0(), Steps: []Step{Write("a", "a\n"), Run("add", "a"), Run("commit", "-m", "c1"), Run("rm", "a"), Run("commit", "-m", "empty")}}})
